@@ -5,7 +5,7 @@ import shapes
 
 
 class Universe:
-    def __init__(self, rng, b, rw_bias=0.4, nleaves=(2, 5), ncolls=(1, 4), poison=0.35, depth=1):
+    def __init__(self, rng, b, rw_bias=0.4, nleaves=(2, 5), ncolls=(1, 4), poison=0.35, depth=1, big=True):
         self.b = b
         self.rng = rng
         rw_only = rng.random() < 0.25
@@ -18,7 +18,8 @@ class Universe:
             self.pool.setdefault(k, []).append(c)
         self.roots = list(leaves)          # acquirable things
         for _ in range(rng.randint(*ncolls)):
-            size = rng.randint(0, 4)
+            # one collection in twelve is large (6-10 members): thresholds, sorting and roll-back beyond a handful of locks
+            size = rng.randint(6, 10) if big and rng.random() < 0.085 else rng.randint(0, 4)
             c = shapes.random_coll(rng, b, size, depth, rw_only, pool=self.pool, top=True)
             self.roots.append(c)
         if rng.random() < poison:
